@@ -149,6 +149,21 @@ namespace vh
     }
     for (auto e : m.AsVector())
       o.d(e);
+    // row assignment from a LONGER vector (legal: the surplus is ignored), last row first so that a stray write into a
+    // later row would stay visible
+    o.key("asgx");
+    {
+      DM mx(rows, cols, 0.0);
+      for (std::size_t x = rows; x-- > 0;)
+      {
+        std::vector<double> row(cols + 1 + x % 2);
+        for (std::size_t c = 0; c < row.size(); ++c)
+          row[c] = c < cols ? (double)(1000 * (x + 1) + c) : (double)(7000000 + 10 * x + c);
+        mx[x] = row;
+      }
+      for (auto e : mx.AsVector())
+        o.d(e);
+    }
     // Max / Min with a threshold in the middle of index-coded data
     {
       DM a(rows, cols, 0.0), b2(rows, cols, 0.0);
